@@ -16,9 +16,6 @@ import HvHydro.Props.C28
 namespace HvHydro
 open List Kind
 
-/-- the values of key `k`, in stream order -/
-def keyVals (k : Val) (l : List Val) : List Val := (l.filter (fun x => decide (x.key = k))).map Val.value
-
 /-! ### total order -/
 
 /-- every element-wise `'static` operator emits, across any batching, exactly the sequence it emits on
@@ -38,25 +35,6 @@ theorem totalOrder_preserved_program (t : Term) (hk : t.kind = some sT ∨ t.kin
 
 example : (run (.enumerate (.chain (.const [.int 7]) (.input 0))) [[[.int 1], []], [[], []], [[.int 2, .int 3], []]]).flatten
     = [.pair (.int 0) (.int 7), .pair (.int 1) (.int 1), .pair (.int 2) (.int 2), .pair (.int 3) (.int 3)] := by decide
-
-theorem aux_key_pair (a b : Val) : (Val.pair a b).key = a := rfl
-
-/-! ### association-list facts -/
-
-theorem aux_alookup_ainsert {α : Type} (m : List (Val × α)) (k k' : Val) (v : α) :
-    alookup (ainsert m k v) k' = if k' = k then some v else alookup m k' := by
-  induction m with
-  | nil => simp [ainsert, alookup]
-  | cons e r ih =>
-    obtain ⟨k0, v0⟩ := e
-    by_cases h : k = k0
-    · subst h
-      by_cases h2 : k' = k <;> simp [ainsert, alookup, h2]
-    · by_cases h2 : k' = k0
-      · subst h2
-        have : ¬ k' = k := fun e => h e.symm
-        simp [ainsert, alookup, h, this]
-      · simp [ainsert, alookup, h, h2, ih]
 
 /-! ### keyed scan -/
 
@@ -148,28 +126,219 @@ theorem keyed_result_depends_only_on_key_subsequence_scan (init : Val) (f : Val 
       = (mealyList (kscanStep init f) [] l').2.filter (fun y => decide (y.key = k)) := by
   rw [keyed_per_key_order, keyed_per_key_order, h k]
 
-/-! ### keyed fold -/
+/-! ### keyed generators: `limit`, `enumerate`, `first` (and `scan`) -/
 
-theorem aux_kfold (init : Val) (f : Val → Val → Val) (k : Val) (l : List Val) (m : List (Val × Val)) :
-    alookup (l.foldl (kfoldStep init f) m) k
-      = (keyVals k l).foldl (fun o v => some (f (o.getD init) v)) (alookup m k) := by
+theorem aux_kgenStep_same (init : Val) (g : Val → Val → Gen) (m : List (Val × Option Val)) (x : Val) :
+    kst init (kgenStep init g m x).1 x.key = (genStep g (kst init m x.key) x.value).1 ∧
+    (kgenStep init g m x).2 = (genStep g (kst init m x.key) x.value).2.map (Val.pair x.key) := by
+  unfold kgenStep genStep kst
+  cases h1 : alookup m x.key with
+  | none =>
+    cases h2 : g init x.value <;> simp [h1, h2, aux_alookup_ainsert]
+  | some s =>
+    cases s with
+    | none => simp [h1, aux_alookup_ainsert]
+    | some a =>
+      cases h2 : g a x.value <;> simp [h1, h2, aux_alookup_ainsert]
+
+theorem aux_kgenStep_other (init : Val) (g : Val → Val → Gen) (m : List (Val × Option Val)) (x k : Val)
+    (h : x.key ≠ k) :
+    kst init (kgenStep init g m x).1 k = kst init m k ∧
+    (kgenStep init g m x).2.filter (fun y => decide (y.key = k)) = [] := by
+  have hk : ¬ k = x.key := fun e => h e.symm
+  unfold kgenStep kst
+  cases h1 : alookup m x.key with
+  | none =>
+    cases h2 : g init x.value <;> simp [h1, h2, aux_alookup_ainsert, hk, aux_key_pair, h]
+  | some s =>
+    cases s with
+    | none => simp [h1, aux_alookup_ainsert, hk]
+    | some a =>
+      cases h2 : g a x.value <;> simp [h1, h2, aux_alookup_ainsert, hk, aux_key_pair, h]
+
+theorem aux_kgen (init : Val) (g : Val → Val → Gen) (k : Val) (l : List Val)
+    (m : List (Val × Option Val)) :
+    kst init (mealyList (kgenStep init g) m l).1 k = (mealyList (genStep g) (kst init m k) (keyVals k l)).1 ∧
+    (mealyList (kgenStep init g) m l).2.filter (fun y => decide (y.key = k))
+      = (mealyList (genStep g) (kst init m k) (keyVals k l)).2.map (Val.pair k) := by
   induction l generalizing m with
-  | nil => simp [keyVals]
+  | nil => simp [mealyList, keyVals]
   | cons x xs ih =>
-    rw [List.foldl_cons, ih]
     by_cases hx : x.key = k
-    · have hkv : keyVals k (x :: xs) = x.value :: keyVals k xs := by simp [keyVals, hx]
-      rw [hkv, List.foldl_cons]
-      congr 1
+    · have hs := aux_kgenStep_same init g m x
+      have ih' := ih (kgenStep init g m x).1
+      have hkv : keyVals k (x :: xs) = x.value :: keyVals k xs := by simp [keyVals, hx]
       subst hx
-      unfold kfoldStep
-      cases h1 : alookup m x.key <;> simp [h1, aux_alookup_ainsert]
-    · have hkv : keyVals k (x :: xs) = keyVals k xs := by simp [keyVals, hx]
-      have hk : ¬ k = x.key := fun e => hx e.symm
       rw [hkv]
+      simp only [mealyList, List.filter_append, List.map_append]
+      rw [hs.1] at ih'
+      refine ⟨ih'.1, ?_⟩
+      rw [ih'.2, hs.2]
       congr 1
-      unfold kfoldStep
-      simp [aux_alookup_ainsert, hk]
+      rw [List.filter_map]
+      congr 1
+      apply List.filter_eq_self.mpr
+      intro y _
+      simp [aux_key_pair]
+    · have ho := aux_kgenStep_other init g m x k hx
+      have ih' := ih (kgenStep init g m x).1
+      have hkv : keyVals k (x :: xs) = keyVals k xs := by simp [keyVals, hx]
+      rw [hkv]
+      simp only [mealyList, List.filter_append]
+      rw [ho.1] at ih'
+      exact ⟨ih'.1, by rw [ho.2, ih'.2]; simp⟩
+
+/-- **a keyed generator keeps every key's order and runs one independent generator per key**: what is
+    emitted for key `k`, in emission order, is the plain generator run over `k`'s own values in arrival
+    order (`KeyedStream::generator`, hence `limit`, `enumerate`, `first`, `scan`, `fold_early_stop`) -/
+theorem keyed_generator_per_key_order (init : Val) (g : Val → Val → Gen) (k : Val) (l : List Val) :
+    (mealyList (kgenStep init g) [] l).2.filter (fun y => decide (y.key = k))
+      = (mealyList (genStep g) (some init) (keyVals k l)).2.map (Val.pair k) := by
+  simpa [kst, alookup] using (aux_kgen init g k l []).2
+
+theorem keyed_result_depends_only_on_key_subsequence_generator (init : Val) (g : Val → Val → Gen)
+    (l l' : List Val) (h : ∀ k, keyVals k l = keyVals k l') (k : Val) :
+    (mealyList (kgenStep init g) [] l).2.filter (fun y => decide (y.key = k))
+      = (mealyList (kgenStep init g) [] l').2.filter (fun y => decide (y.key = k)) := by
+  rw [keyed_generator_per_key_order, keyed_generator_per_key_order, h k]
+
+theorem aux_gen_none (g : Val → Val → Gen) (l : List Val) : mealyList (genStep g) none l = (none, []) := by
+  induction l with
+  | nil => rfl
+  | cons x xs ih => simp [mealyList, genStep, ih]
+
+theorem aux_limitGen (n : Nat) (c : Nat) (hc : c < n) (l : List Val) :
+    (mealyList (genStep (limitGen n)) (some (.int c)) l).2 = l.take (n - c) := by
+  induction l generalizing c with
+  | nil => simp [mealyList]
+  | cons x xs ih =>
+    have h1 : ¬ ((c : Int) = (n : Int)) := by omega
+    by_cases h2 : c + 1 = n
+    · have h2' : (c : Int) + 1 = (n : Int) := by omega
+      have h3 : n - c = 1 := by omega
+      simp [mealyList, genStep, limitGen, h1, h2', aux_gen_none, h3]
+    · have h2' : ¬ ((c : Int) + 1 = (n : Int)) := by omega
+      have h3 : n - c = (n - (c + 1)) + 1 := by omega
+      have ih' := ih (c + 1) (by omega)
+      have hcast : (((c + 1 : Nat)) : Int) = (c : Int) + 1 := by omega
+      rw [hcast] at ih'
+      simp [mealyList, genStep, limitGen, h1, h2', ih', h3]
+
+/-- keyed `limit(n)`: per key the first `n` values (`List.take`) -/
+theorem keyed_limit_is_take_per_key (n : Nat) (k : Val) (l : List Val) :
+    (mealyList (kgenStep (.int 0) (limitGen n)) [] l).2.filter (fun y => decide (y.key = k))
+      = ((keyVals k l).take n).map (Val.pair k) := by
+  rw [keyed_generator_per_key_order]
+  cases n with
+  | zero =>
+    congr 1
+    cases keyVals k l with
+    | nil => simp [mealyList]
+    | cons x xs => simp [mealyList, genStep, limitGen, aux_gen_none]
+  | succ n =>
+    have := aux_limitGen (n + 1) 0 (by omega) (keyVals k l)
+    have h0 : ((0 : Nat) : Int) = 0 := rfl
+    rw [h0, Nat.sub_zero] at this
+    rw [this]
+
+theorem aux_enumGen (c : Nat) (l : List Val) :
+    (mealyList (genStep enumGen) (some (.int c)) l).2 = (l.zipIdx c).map (fun p => Val.pair (.int p.2) p.1) := by
+  induction l generalizing c with
+  | nil => simp [mealyList]
+  | cons x xs ih =>
+    have ih' := ih (c + 1)
+    have hcast : (((c + 1 : Nat)) : Int) = (c : Int) + 1 := by omega
+    rw [hcast] at ih'
+    simp [mealyList, genStep, enumGen, ih', List.zipIdx_cons]
+
+/-- keyed `enumerate()`: per key, the key's own values numbered 0, 1, 2, … -/
+theorem keyed_enumerate_is_zipIdx_per_key (k : Val) (l : List Val) :
+    (mealyList (kgenStep (.int 0) enumGen) [] l).2.filter (fun y => decide (y.key = k))
+      = (((keyVals k l).zipIdx 0).map (fun p => Val.pair (.int p.2) p.1)).map (Val.pair k) := by
+  rw [keyed_generator_per_key_order]
+  have := aux_enumGen 0 (keyVals k l)
+  have h0 : ((0 : Nat) : Int) = 0 := rfl
+  rw [h0] at this
+  rw [this]
+
+/-- keyed `first()`: per key the first value, nothing more -/
+theorem keyed_first_is_head_per_key (init : Val) (k : Val) (l : List Val) :
+    (mealyList (kgenStep init firstGen) [] l).2.filter (fun y => decide (y.key = k))
+      = (keyVals k l).head?.toList.map (Val.pair k) := by
+  rw [keyed_generator_per_key_order]
+  cases keyVals k l with
+  | nil => simp [mealyList]
+  | cons x xs => simp [mealyList, genStep, firstGen, aux_gen_none]
+
+example : (mealyList (kgenStep (.int 0) (limitGen 1)) []
+      [.pair (.int 1) (.int 5), .pair (.int 2) (.int 9), .pair (.int 1) (.int 7), .pair (.int 2) (.int 3)]).2
+    = [.pair (.int 1) (.int 5), .pair (.int 2) (.int 9)] := by decide
+
+/-- keyed generators under all tick partitions and cross-key interleavings: per key, the sequence emitted
+    over all ticks is the same -/
+theorem keyed_generator_all_partitions_interleavings (init : Val) (g : Val → Val → Gen) (t : Term)
+    (hk : t.kind = some sT ∨ t.kind = some sK) (hwf : t.WF)
+    (ins ins' : List TickIn) (hne : ins ≠ []) (hne' : ins' ≠ [])
+    (hkeys : ∀ k, keyVals k (spec t (wholeInput ins)) = keyVals k (spec t (wholeInput ins'))) (k : Val) :
+    (run (.kgen init g t) ins).flatten.filter (fun y => decide (y.key = k))
+      = (run (.kgen init g t) ins').flatten.filter (fun y => decide (y.key = k)) := by
+  simp only [run]
+  rw [aux_mealyStatic_flatten, aux_mealyStatic_flatten, totalOrder_preserved_program t hk hwf ins hne,
+    totalOrder_preserved_program t hk hwf ins' hne']
+  exact keyed_result_depends_only_on_key_subsequence_generator init g _ _ hkeys k
+
+/-! ### keyed reduce -/
+
+/-- **keyed reduce**: the value of key `k` is the reduce of `k`'s own values in arrival order -/
+theorem keyed_result_depends_only_on_key_subsequence_reduce (f : Val → Val → Val) (k : Val) (l : List Val) :
+    alookup (l.foldl (kreduceStep f) []) k
+      = match keyVals k l with
+        | [] => none
+        | v :: vs => some (vs.foldl f v) := by
+  rw [aux_kreduce]
+  simp only [alookup]
+  rw [aux_reduce]
+  cases keyVals k l <;> rfl
+
+theorem keyed_reduce_all_partitions_interleavings (f : Val → Val → Val) (t : Term)
+    (hk : t.kind = some sT ∨ t.kind = some sK) (hwf : t.WF)
+    (ins ins' : List TickIn) (hne : ins ≠ []) (hne' : ins' ≠ [])
+    (hkeys : ∀ k, keyVals k (spec t (wholeInput ins)) = keyVals k (spec t (wholeInput ins'))) :
+    ∃ m m', (run (.kreduce f t) ins).getLast? = some (entries m) ∧
+            (run (.kreduce f t) ins').getLast? = some (entries m') ∧
+            ∀ k, alookup m k = alookup m' k := by
+  refine ⟨(spec t (wholeInput ins)).foldl (kreduceStep f) [],
+          (spec t (wholeInput ins')).foldl (kreduceStep f) [], ?_, ?_, ?_⟩
+  · have hne2 : run t ins ≠ [] := by
+      intro h; have := aux_run_length t ins; rw [h] at this; exact hne (List.eq_nil_of_length_eq_zero this.symm)
+    simp only [run]
+    rw [aux_accStatic_getLast _ _ _ _ hne2, totalOrder_preserved_program t hk hwf ins hne]
+  · have hne2 : run t ins' ≠ [] := by
+      intro h; have := aux_run_length t ins'; rw [h] at this; exact hne' (List.eq_nil_of_length_eq_zero this.symm)
+    simp only [run]
+    rw [aux_accStatic_getLast _ _ _ _ hne2, totalOrder_preserved_program t hk hwf ins' hne']
+  · intro k
+    rw [aux_kreduce, aux_kreduce, hkeys k]
+
+/-! ### keyed streams whose values are `NoOrder` -/
+
+/-- a keyed fold with a commutativity proof over a keyed stream with unordered values (e.g. after
+    `merge_unordered`): whatever the tick partitions, and however the two runs order the elements
+    (same multiset), the final maps have the same entries -/
+theorem keyed_noOrder_fold_all_partitions_orders (init : Val) (f : Val → Val → Val) (t : Term)
+    (hk : t.kind = some sN) (hwf : t.WF) (hc : ∀ a x y, f (f a x) y = f (f a y) x)
+    (ins ins' : List TickIn) (hne : ins ≠ []) (hne' : ins' ≠ [])
+    (hsame : (spec t (wholeInput ins)).Perm (spec t (wholeInput ins'))) :
+    ∃ l l', (run (.kfoldN init f t) ins).getLast? = some l ∧
+            (run (.kfoldN init f t) ins').getLast? = some l' ∧ l.Perm l' := by
+  have h1 := program_eventually_deterministic (.kfoldN init f t) ksing (by simp [Term.kind, hk]) ⟨hwf, hc⟩ ins hne
+  have h2 := program_eventually_deterministic (.kfoldN init f t) ksing (by simp [Term.kind, hk]) ⟨hwf, hc⟩ ins' hne'
+  simp only [Agrees, spec] at h1 h2
+  obtain ⟨l, hl, pl⟩ := h1
+  obtain ⟨l', hl', pl'⟩ := h2
+  exact ⟨l, l', hl, hl', pl.trans ((aux_kfold_perm init f hc _ _ hsame).trans pl'.symm)⟩
+
+/-! ### keyed fold -/
 
 /-- **keyed fold**: the value of key `k` is the fold of `k`'s own values in arrival order (absent if `k`
     never occurred) -/
